@@ -820,6 +820,10 @@ impl Alphabet {
                 v.push(StepScript { answer: a, ..d });
             }
         }
+        // worse than the previous default answer by the smallest representable amount
+        let prev = (t - 1) as f64;
+        let below = if prev == 0. { -f64::from_bits(1) } else { f64::from_bits(prev.to_bits() - 1) };
+        v.push(StepScript { answer: Some(below), ..d });
         v
     }
 }
